@@ -172,6 +172,10 @@ func (xaManager *XAResourceManager) BranchCommit(ctx context.Context, branchReso
 		return branch.BranchStatusPhasetwoRollbackFailedUnretryable, err
 	}
 
+	// the connection was either opened for this request or withdrawn from the pool while it was held:
+	// in both cases nobody else will close it
+	defer connectionProxyXA.closeAfterPhaseTwo()
+
 	if err := connectionProxyXA.XaCommit(ctx, xaID); err != nil {
 		log.Errorf("commit xa, resourceId: %s, err %v", branchResource.ResourceId, err)
 		setBranchStatus(xaID.String(), branch.BranchStatusPhasetwoCommitted)
@@ -188,6 +192,8 @@ func (xaManager *XAResourceManager) BranchRollback(ctx context.Context, branchRe
 	if err != nil {
 		return branch.BranchStatusPhasetwoRollbackFailedUnretryable, err
 	}
+
+	defer connectionProxyXA.closeAfterPhaseTwo()
 
 	if err = connectionProxyXA.XaRollbackByBranchId(ctx, xaID); err != nil {
 		log.Errorf("rollback xa, resourceId: %s, err %v", branchResource.ResourceId, err)
